@@ -19,6 +19,8 @@ server's back, the value of LAST between "highest number DELEted" and "highest n
 accessed for 36 hours (maildir(5) lets a reader remove them), USER / PASS with an empty argument, PASS that does not
 directly follow USER.  Not generated (unspecified): `RETR n k`, numeric arguments with trailing junk or leading
 zeros, arguments with leading blanks, NUL / CR / LF inside arguments, duplicate unique names, names with ':' in new/.
+A violation of a fixed / regression input is reported only if it reproduces twice more (DESIGN.md section 1), otherwise
+it is counted as inconclusive / class flaky_unreproducible.  C19_N overrides the Hypothesis examples per worker.
 """
 import os, re, json, shutil, signal
 from lib import vlib, sandbox
@@ -42,6 +44,39 @@ T0 = 1700000000          # pinned server time
 STALE = 129600           # 36 hours
 BIG = {"2^31": str(2 ** 31), "2^32+1": str(2 ** 32 + 1), "10^20": str(10 ** 20), "2^64+1": str(2 ** 64 + 1)}
 UNKNOWN = ["XYZZY", "FOO 1", "DELETE 1", "RETR1", "USER bob", "PASS secret", "APOP bob 0123", "HELO x", "QUITX", ""]
+
+
+TOOLS = {"shim": sandbox.SHIM, "standin": sandbox.STANDIN}
+
+
+def private_tools():
+    """Other engineers rebuild shim/vshim.so while checks run; a child started in that window runs without the
+    interposer (real uid 0, no chdir redirection) and every oracle misfires.  Each run therefore works with its own
+    verified copy of vshim.so and standin under the scratch root."""
+    import subprocess, time
+    d = os.path.join(vlib.scratch_root(), "tools")
+    os.makedirs(d, exist_ok=True)
+    shim, standin = os.path.join(d, "vshim.so"), os.path.join(d, "standin")
+    why = ""
+    for attempt in range(15):
+        try:
+            shutil.copy2(sandbox.SHIM, shim)
+            shutil.copy2(sandbox.STANDIN, standin)
+            p = subprocess.run([standin], env={"LD_PRELOAD": shim, "SI_DIR": d, "VSHIM_UID": "4242"}, stdin=subprocess.DEVNULL,
+                               stdout=subprocess.PIPE, stderr=subprocess.PIPE, timeout=20)
+            meta = [f for f in os.listdir(d) if f.endswith(".meta")]
+            ok = p.returncode == 0 and not p.stderr and meta and "uid=4242" in open(os.path.join(d, meta[0])).read()
+            for f in os.listdir(d):
+                if f not in ("vshim.so", "standin"):
+                    os.unlink(os.path.join(d, f))
+            if ok:
+                TOOLS["shim"], TOOLS["standin"] = shim, standin
+                return
+            why = "exit %s stderr %r" % (p.returncode, p.stderr[:200])
+        except (OSError, subprocess.SubprocessError) as e:
+            why = str(e)
+        time.sleep(1)
+    raise vlib.HarnessError("no loadable copy of the shim / stand-in: " + why)
 
 
 # ------------------------------------------------------------------ reference model
@@ -351,7 +386,9 @@ class Runner:
         self.popup = tree.path("qmail-popup")
 
     def env(self, uid, **extra):
-        return self.h.env(role="pop", uid=uid, trace=False, VSHIM_FIXTIME=T0, **extra)
+        e = self.h.env(role="pop", uid=uid, trace=False, VSHIM_FIXTIME=T0, **extra)
+        e["LD_PRELOAD"] = TOOLS["shim"]
+        return e
 
     # ---------------------------------------------------------------- pop3d transaction phase on an open session
     def transaction(self, s, sc, steps, end, cls, start_fs):
@@ -594,7 +631,7 @@ class Runner:
         host = sc["host"]
         senv = sandbox.standin_env(self.rec, read="3", exit=1 if ck == "exit1" else 0,
                                    kill=int(ck[4:]) if ck.startswith("kill") else None, exec_=(ck == "exec"))
-        sub = [sandbox.STANDIN, self.pop3d, self.md]
+        sub = [TOOLS["standin"], self.pop3d, self.md]
         s = sandbox.Session([self.popup, host] + sub, self.env(4242, **senv))
         ran = False
         model = None
@@ -924,6 +961,14 @@ REQUIRED_CLASSES = ["pop3d", "popup", "uid0", "end_quit", "end_eof", "end_kill",
                     "cmd_RSET", "cmd_TOP", "cmd_UIDL", "cmd_LAST", "cmd_UNKNOWN", "tmp_stale", "tmp_fresh"]
 
 
+def debug_log(msg, sc):
+    """VERIF_DEBUG_LOG=<file>: log every violation message / harness exception seen inside the Hypothesis search."""
+    p = os.environ.get("VERIF_DEBUG_LOG")
+    if p and msg:
+        with open(p, "a") as f:
+            f.write(json.dumps({"msg": msg, "scenario": vlib.jsonable(sc)}) + "\n")
+
+
 def worker(job):
     tree, wid, seed, nex, fixed = job
     stats = vlib.Stats()
@@ -931,10 +976,24 @@ def worker(job):
     for sc in fixed:
         v = r.run(sc, stats)
         if v:
-            stats.violations.append((v, sc))
-            return stats
+            # DESIGN.md section 1: a violation counts only if it reproduces (a concurrent rebuild of the shim, an
+            # overloaded machine ... must never surface as a violation)
+            if all([r.run(sc, vlib.Stats()) for _ in range(2)]):
+                stats.violations.append((v, sc))
+                return stats
+            stats.inconclusive += 1
+            stats.cls("flaky_unreproducible")
+    def runfn(sc, stats):
+        try:
+            v = r.run(sc, stats)
+        except Exception:
+            import traceback
+            debug_log("EXC " + traceback.format_exc(), sc)
+            raise
+        debug_log(v, sc)
+        return v
     if nex:
-        vlib.hyp_search(scenario, r.run, nex, seed, stats)
+        vlib.hyp_search(scenario, runfn, nex, seed, stats)
     return stats
 
 
@@ -951,6 +1010,7 @@ def regress_inputs():
 
 def run(ctx):
     sandbox.ensure_shim()
+    private_tools()
     tree = vlib.Tree().make("qmail-pop3d", "qmail-popup")
     fixed = regress_inputs() + fixed_inputs()
     nw = vlib.NCPU
@@ -965,6 +1025,7 @@ def run(ctx):
 
 def replay(ctx, path):
     sandbox.ensure_shim()
+    private_tools()
     tree = vlib.Tree().make("qmail-pop3d", "qmail-popup")
     sc = json.load(open(path))
     sc = sc.get("scenario", sc)
